@@ -134,6 +134,7 @@ type mix struct {
 	pkceBad                                                                                                                     int // percent of redemptions on PKCE grants using a bad verifier variant
 	mutate                                                                                                                      int // percent of introspections presenting a mutated credential
 	extras                                                                                                                      int // percent of authorisations whose session carries extra claims named like reserved introspection members
+	assertions                                                                                                                  int // weight of JWT assertion presentations on both sides of their expiry (C07)
 }
 
 func genHistory(t *Tape, k *Knobs, m mix, n int) []Step {
@@ -141,7 +142,7 @@ func genHistory(t *Tape, k *Knobs, m mix, n int) []Step {
 	nc := len(k.Clients)
 	codes, rts := 0, 0
 	w := []int{m.authz, m.hybrid, m.redeem, m.redeemBad, m.refresh, m.refreshOld, m.refreshForeign, m.introspect, m.revoke, m.revokeBad, m.advance, m.password, m.cc,
-		m.device, m.par, m.jwtBearer, m.clientChange, m.rotate, m.implicit}
+		m.device, m.par, m.jwtBearer, m.clientChange, m.rotate, m.implicit, m.assertions}
 	devs, pars, secretN := 0, 0, 0
 	for len(steps) < n {
 		switch t.Weighted(w) {
@@ -295,6 +296,9 @@ func genHistory(t *Tape, k *Knobs, m mix, n int) []Step {
 				if t.Chance(15) {
 					s.C = t.Intn(nc)
 				}
+				if t.Chance(8) {
+					s.P = map[string]string{"mutate": t.Pick([]string{"flipkey", "swapkey", "foreignkey-storedsig", "trunckey", "flipsig"})}
+				}
 				if t.Chance(5) {
 					s.A = "bad_secret"
 				}
@@ -321,6 +325,13 @@ func genHistory(t *Tape, k *Knobs, m mix, n int) []Step {
 					s.P["x_scope"] = "admin photos"
 					s.P["x_state"] = "attacker-state-xyz"
 				}
+				if t.Chance(20) {
+					s.P["x_code_challenge"] = s256("attacker-verifier-0123456789abcdefghijklmnopqrstuvw")
+					s.P["x_code_challenge_method"] = "S256"
+				}
+				if t.Chance(10) {
+					s.P["x_nonce"] = "attacker-nonce-abcdefgh"
+				}
 				if t.Chance(15) {
 					s.P["x_redirect"] = "reg:1"
 				}
@@ -340,6 +351,12 @@ func genHistory(t *Tape, k *Knobs, m mix, n int) []Step {
 			secretN++
 			v := t.Pick([]string{"keep_old", "keep_old", "forget_old", "drop_rotated", "reverse_rotated"})
 			steps = append(steps, Step{Op: "rotate_global", V: v, P: map[string]string{"new": fmt.Sprintf("rotated-global-secret-%02d-0123456789abcdef", secretN)}})
+		case 19:
+			if t.Bool() {
+				steps = append(steps, Step{Op: "bearer_assert", C: t.Intn(2), D: int64(t.Intn(2)), V: t.Pick([]string{"ok", "exp_past", "exp_just_past", "exp_past_45s", "exp_soon", "nbf_just_ahead", "nbf_past", "exp_too_far", "exp_within_max"})})
+			} else {
+				steps = append(steps, Step{Op: "client_assert", C: t.Intn(2), V: t.Pick([]string{"ok", "expired", "exp_just_past", "expired_45s", "expired_long", "exp_soon", "exp_zero", "replay"})})
+			}
 		case 18:
 			c := t.Intn(nc)
 			s := st("authz", c, 0, "rt", t.Pick([]string{"token", "id_token token", "id_token"}), "scope", "openid "+pickScopes(t, 0, 20), "nonce", fmt.Sprintf("nonce-%d-abcdefgh", len(steps)))
@@ -430,7 +447,8 @@ func init() {
 		}
 	})
 	// C07: every credential kind on both sides of its expiry; lifetime sources incl. per-client overrides
-	hist("c07", "C07", mix{authz: 10, hybrid: 5, implicit: 4, redeem: 12, refresh: 10, refreshOld: 1, introspect: 12, advance: 30, password: 4, cc: 3, device: 12, par: 10, jwtBearer: 3, pkce: 10}, 14, 50, func(t *Tape, k *Knobs) {
+	hist("c07", "C07", mix{authz: 10, hybrid: 5, implicit: 4, redeem: 12, refresh: 10, refreshOld: 1, introspect: 12, advance: 30, password: 4, cc: 3, device: 12, par: 10, jwtBearer: 3, pkce: 10, assertions: 8}, 14, 50, func(t *Tape, k *Knobs) {
+		jwtClients(k)
 		if t.Chance(50) {
 			k.DeviceLife = int64(t.Range(30, 3600))
 			k.PARLife = int64(t.Range(20, 1200))
